@@ -485,6 +485,61 @@ func c15Scenario(w *vfWorld, r *vfkit.R, idx int, callsOn bool) {
 			}
 		}
 	}
+	// directed: an accepted call whose party's session leaves (or drops) ends as 'disconnected'
+	if !sc.broken && callsOn && sc.cur == nil {
+		var caller, callee *c15Sess
+		for _, s := range sc.ss {
+			if sc.attached(s) && caller == nil {
+				caller = s
+			} else if sc.attached(s) && caller != nil && s.u != caller.u && callee == nil {
+				callee = s
+			}
+		}
+		if caller != nil && callee != nil {
+			globals.callEstablishmentTimeout = 3000
+			content := fmt.Sprintf("call-%d-final", idx)
+			f := caller.c.pub(caller.name, content, false, map[string]any{"webrtc": "started", "mime": "application/x-tinode-webrtc"})
+			e.vfQuiesce()
+			if f != nil && f.code() == 202 {
+				seq := int(f.params()["seq"].(float64))
+				sc.cur = &c15Call{seq: seq, caller: caller, content: content}
+				sc.calls = append(sc.calls, sc.cur)
+				sc.newRows()
+				sc.logf("%s invites -> 202 (directed)", caller.lbl)
+				cnt := sc.counts()
+				callee.c.send("note", map[string]any{"topic": callee.name, "what": "call", "event": "accept", "seq": seq, "payload": map[string]any{"sdp": "x"}})
+				e.vfQuiesce()
+				sc.logf("%s sends call accept seq=%d (right)", callee.lbl, seq)
+				sc.expect("accept", cnt, "accept", []*c15Sess{caller}, []string{"accepted"}, nil)
+				if !sc.broken {
+					sc.cur.callee = callee
+					sc.cur.accepted++
+					leaver := []*c15Sess{callee, caller}[idx%2]
+					cnt = sc.counts()
+					if idx%4 < 2 {
+						leaver.c.leave(leaver.name, false)
+						sc.logf("%s leaves", leaver.lbl)
+					} else {
+						leaver.c.close()
+						sc.logf("%s disconnects", leaver.lbl)
+					}
+					e.vfQuiesce()
+					var wantInfo []*c15Sess
+					for _, x := range sc.ss {
+						if sc.attached(x) {
+							wantInfo = append(wantInfo, x)
+						}
+					}
+					sc.may = leaver
+					sc.expect("party-leaves", cnt, "hang-up", wantInfo, []string{"disconnected"}, nil)
+					if !sc.broken {
+						r.Hit("accepted_call_party_leaves")
+						sc.endCall("disconnected")
+					}
+				}
+			}
+		}
+	}
 	if !sc.broken && callsOn && sc.cur == nil {
 		for _, s := range sc.ss {
 			if sc.attached(s) {
